@@ -454,7 +454,7 @@ Lemma fq_seek_fits ffuel r line byte_ r' o : fq_seek ffuel r line byte_ = (r', o
 Proof.
   unfold fq_seek. intros H Hf.
   destruct ((0 <=? Z.of_nat (p0 r) + (Z.of_nat byte_ - Z.of_nat (qbyte r)))%Z &&
-            (Z.of_nat (p0 r) + (Z.of_nat byte_ - Z.of_nat (qbyte r)) <? Z.of_nat (length (qbuf r)))%Z).
+            (Z.of_nat (p0 r) + (Z.of_nat byte_ - Z.of_nat (qbyte r)) <? Z.of_nat (length (qbuf r)))%Z && negb (fq_state_eqb (qst r) QNew)).
   { inversion H; subst. exact Hf. }
   destruct (src_seek (qsrc r) byte_) as [s' res] eqn:Es.
   destruct res as [k|]; [inversion H; subst; exact Hf|].
